@@ -183,12 +183,26 @@ def enumerate_cases(tier, seed):
         for f, t in reps[sig]:
             rl.append({"fam": "rep:" + f, "outs": [["out", t]]})
     l2 = [{"fam": "l2:" + f, "outs": [["out", t]]} for f, t in space.l2("quick")]
+    # parameter-sensitive high-level nodes (C02's parameter spaces: 3-cycle permutations of non-cubic operands, F-order
+    # reshapes, rolls, negative-step slices, advanced indices, einsum specs, CSR patterns): code-generation preprocessing
+    # lowers them, and a lowering that is only right for symmetric parameters must not pass as value-preserving
+    from vf.checks import c02
+    hl, seen = [], set()
+    for g, t in c02.gen_terms("quick"):
+        k = T.tkey(t)
+        if k not in seen and space.np_accepts(t) is not None:
+            seen.add(k)
+            hl.append({"fam": "hl:" + g, "outs": [["out", t]]})
+    core = [c for c in hl if c["fam"] == "hl:AxisPermutation"]
+    rest = [c for c in hl if c["fam"] != "hl:AxisPermutation"]
     if tier == "quick":
         rl = runner.slice_by_seed(rl, seed, 3)
         l2 = runner.slice_by_seed(l2, seed, 400)
+        hl = core + runner.slice_by_seed(rest, seed, 300)
     else:
         l2 = runner.slice_by_seed(l2, seed, 12)
-    return cases + rl + l2
+        hl = core + runner.slice_by_seed(rest, seed, 20)
+    return cases + rl + l2 + hl
 
 
 # ---------------------------------------------------------------------------
